@@ -47,14 +47,14 @@ PROPS = {
         'C02_check: pg_read(sql) must succeed, be built from allowed nodes only, every column must be a field/default field of the query and every string constant a (translated) value of the query.',
         ['PgModel is a conservative model of scan.l/gram.y validated one-directionally against pg_query in design; not re-validated at run time']),
     'C03': P(
-        [],
-        [('corpus', 0), ('sem', 5000), ('rand', 2000)],
-        [('corpus', 0), ('sem', 80000), ('rand', 20000)],
+        ['C03_pattern_translation_preserves_meaning'],
+        [('corpus', 0), ('sem', 1700), ('sem', 1700), ('sem', 1700), ('rand', 2000)],
+        [('corpus', 0), ('sem', 20000), ('sem', 20000), ('sem', 20000), ('sem', 20000), ('rand', 20000)],
         PARSE + ['Render', 'ToPostgres'],
-        'not proved yet: decided by the executable semantics (query semantics vs SQL semantics on probe rows) over generated fragment trees; see DESIGN C03',
-        'fragment trees (equality, comparisons, ranges with every bound kind x inclusivity, value lists, patterns, AND/OR/NOT/+/-), each evaluated on probe rows hitting every region cut out by the constants',
-        'search device only; the theorem C03_faithful is a growth item',
-        ['PostgreSQL reading of the SQL text is the PgModel one'], level='other'),
+        'partial: proved so far is the pattern clause (SIMILAR TO on the translated pattern matches exactly what the Lucene pattern matches, for all patterns without % and _ and all strings). The leaf comparisons, ranges, value lists and the Boolean structure are decided by the executable semantics: the meaning of the query text (Spec/QuerySem.qsem on the model parse) against the meaning of the SQL text as the PostgreSQL model reads it (Spec/SqlSem.ssem on PgModel.pg_read), on probe rows hitting every region cut out by the query constants.',
+        'fragment trees (equality, comparisons, ranges with every bound kind x inclusivity, value lists, patterns, AND/OR/NOT/+/-, parentheses, juxtaposition), each evaluated on up to 300 probe rows (all constants, +-1, all pairwise midpoints; strings: each constant, just above, just below, pattern instances and near misses); non-trivial = rendered and read back by the PostgreSQL model',
+        'the theorem C03_faithful over all trees and all rows is a growth item; the check is a search device plus the correspondence',
+        ['PostgreSQL reading of the SQL text is the PgModel one; string order is byte order on both sides']),
     'C04': P(
         ['C04_placeholders_match_parameters', 'C04_render_param_returns'],
         [('corpus', 0), ('rand', 4000), ('subst', 1500), ('quote', 1000), ('sem', 2500)],
@@ -123,7 +123,7 @@ PROPS = {
         'pairs (without / with a default field that does not occur in the query) of random trees and token sequences, field names needing quoting',
         '', []),
     'C12': P(
-        ['C12_encode_returns', 'C12_atoi_itoa', 'C12_int_leaf_roundtrip', 'C12_string_leaf_roundtrip'],
+        ['C12_encode_returns', 'C12_atoi_itoa', 'C12_int_leaf_roundtrip', 'C12_string_leaf_roundtrip', 'C12_operator_names_roundtrip', 'C12_operator_names_total', 'C12_decoder_uses_from_string'],
         [('corpus', 0), ('rand', 6000), ('trees', 2000)],
         [('corpus', 0), ('rand', 80000), ('trees', 30000)],
         PARSE + ['Marshal'] + JSONRT,
@@ -147,7 +147,7 @@ PROPS = {
         'runtime behaviour (memory model, slice aliasing) is outside any Gallina model',
         ['Go race detector'], level='other', custom=True),
     'C15': P(
-        ['C15_missing_function_fails'],
+        ['C15_missing_function_fails', 'C15_postgres_render_is_the_fold', 'C15_postgres_table_is_the_generated_one', 'C15_fuzzy_boost_unsupported', 'C15_to_postgres_rejects_fuzzy_boost'],
         [('corpus', 0), ('custom', 5000), ('rand', 3000)],
         [('corpus', 0), ('custom', 80000), ('rand', 30000)],
         ['parse'] + CUSTOM + ['ToPostgres', 'ToParameterizedPostgres'],
